@@ -630,21 +630,52 @@ func ruleFinishAccounting(ctx *Ctx, rule string) {
 				if !ok || ssaq.FieldVar(fa) != flagsF {
 					continue
 				}
-				bo, ok := st.Val.(*ssa.BinOp)
-				if !ok || bo.Op != token.OR {
-					continue
+				// where the flag bit can come from: an OR with a constant that
+				// contains it, directly or through a local that collects the
+				// flags first (a phi); each origin is judged in the block in
+				// which the bit is added
+				var origins []*ssa.BasicBlock
+				var collect func(v ssa.Value, at *ssa.BasicBlock, depth int)
+				collect = func(v ssa.Value, at *ssa.BasicBlock, depth int) {
+					if depth > 4 {
+						return
+					}
+					switch x := v.(type) {
+					case *ssa.Const:
+						if k, ok := ssaq.ConstInt(x); ok && k&fv != 0 {
+							origins = append(origins, at)
+						}
+					case *ssa.BinOp:
+						if x.Op == token.OR {
+							collect(x.X, x.Block(), depth+1)
+							collect(x.Y, x.Block(), depth+1)
+						}
+					case *ssa.Phi:
+						for i, e := range x.Edges {
+							collect(e, x.Block().Preds[i], depth+1)
+						}
+					case *ssa.Convert:
+						collect(x.X, at, depth+1)
+					case *ssa.ChangeType:
+						collect(x.X, at, depth+1)
+					}
 				}
-				if k, ok := ssaq.ConstInt(bo.Y); !ok || k != fv {
+				collect(st.Val, b, 0)
+				if len(origins) == 0 {
 					continue
 				}
 				found = true
-				okp := false
-				for _, at := range ssaq.Atoms(ssaq.Guards(b)) {
-					if at.Op == token.ILLEGAL && at.True {
-						if p, ok := at.Val.(*ssa.Parameter); ok && ssaq.ParamRefName(p) == "releaseResultCaps" {
-							okp = true
+				okp := true
+				for _, ob := range origins {
+					one := false
+					for _, at := range ssaq.Atoms(ssaq.Guards(ob)) {
+						if at.Op == token.ILLEGAL && at.True {
+							if p, ok := at.Val.(*ssa.Parameter); ok && ssaq.ParamRefName(p) == "releaseResultCaps" {
+								one = true
+							}
 						}
 					}
+					okp = okp && one
 				}
 				key := "handleFinish | releaseResultCapsFlag set only when the Finish says so"
 				if okp {
